@@ -1,1 +1,15 @@
-From PC Require Import Model.Marker.
+(* C17 — marker projections only ever weaken.
+   Proved on the unsimplified structure ([only_raw]: foreign leaves replaced by the universal marker):
+   the projection mentions only the requested names and holds wherever the marker holds.  The implementation
+   additionally re-simplifies (MultiMarker.of / MarkerUnion.of, level 2); exclusion and reduction by a Python range
+   also go through the simplifier: they are judged on the implementation by the oracle. *)
+From Coq Require Import List Bool NArith String.
+From PC Require Import Base.Result Model.Generic Model.Marker Proofs.MarkerProofs.
+Import ListNotations.
+
+Theorem C17_only_weakens : forall E names m, beval E m = true -> beval E (only_raw names m) = true.
+Proof. exact only_raw_weakens. Qed.
+Print Assumptions C17_only_weakens.
+Theorem C17_only_names : forall names m n, In n (names_of (only_raw names m)) -> mem_str n names = true.
+Proof. exact only_raw_names. Qed.
+Print Assumptions C17_only_names.
